@@ -130,6 +130,8 @@ def gen_program(rng, clock=None, n_events=None, p_cancel=0.12, p_bad=0.0,
         prog["int_literals"] = True        # whole numbers are passed as Python ints
     if rng.random() < 0.12:
         add_tc_listener(rng, prog)
+    if rng.random() < 0.15:
+        prog["temp_targets"] = True      # handlers on temporary objects (see simrun.Entity)
     if rng.random() < 0.08:
         # a handler (or construct_model) runs a second simulator to its end
         n = rng.randint(1, 5)
